@@ -1487,3 +1487,176 @@ Proof.
       destruct l as [|c [|c' l']]; try (split; discriminate).
       destruct (list_eq_dec N.eq_dec c [10%N]) as [->|Hne]; [tauto|]. split; [discriminate|]. intro E. inversion E. contradiction.
 Qed.
+
+(* ---------- readings under buf_wf ---------- *)
+(* a blank character is a line break exactly when it is the terminator of its line *)
+Lemma nl_is_terminator b r o l : buf_wf b -> getl b r = Some l -> 0 <= o < slen l ->
+  uc_isspace (lchr b r o) = true -> (is_nl (lchr b r o) = true <-> o = slen l - 1).
+Proof.
+  intros HW El Ho Hsp. unfold lchr. rewrite El. unfold lchr in Hsp. rewrite El in Hsp.
+  destruct (getl_wf _ _ _ HW El) as (body & E & HF). pose proof (wf_slen l body E) as Hn.
+  assert (Hc : code (chr_at l o) = b0 (chr_at l o)).
+  { apply code_ascii. unfold uc_isspace in Hsp. apply andb_true_iff in Hsp. destruct Hsp as [H _]. unfold b0. lia. }
+  unfold is_nl. rewrite Hc. split.
+  - intro H. apply N.eqb_eq in H. destruct (Z.eq_dec o (slen l - 1)); [assumption|]. exfalso.
+    revert H. rewrite E. apply wf_chr_body; [exact HF|lia].
+  - intros ->. apply N.eqb_eq. rewrite E at 1. replace (slen l - 1) with (Z.of_nat (length body)) by lia. apply wf_chr_last.
+Qed.
+
+(* the last character of a well-formed buffer is blank, so a word never ends at the last index *)
+Lemma wf_last_blank b : buf_wf b -> b <> [] -> uc_isspace (fchr b (nchars b - 1)) = true.
+Proof.
+  intros HW Hb. destruct (exists_last Hb) as (b1 & l & ->).
+  assert (Hl : line_wf l) by (unfold buf_wf in HW; rewrite Forall_forall in HW; apply HW, in_or_app; right; left; reflexivity).
+  destruct Hl as (body & -> & _). unfold fchr, nchars, flat, chr_at. rewrite concat_app. cbn [concat]. rewrite app_nil_r.
+  rewrite !app_length. cbn [length].
+  destruct (Z.ltb_spec (Z.of_nat (length (concat b1) + (length body + 1)) - 1) 0); [lia|].
+  rewrite app_nth2 by lia. rewrite app_nth2 by lia.
+  replace (Z.to_nat (Z.of_nat (length (concat b1) + (length body + 1)) - 1) - length (concat b1) - length body)%nat with 0%nat by lia.
+  reflexivity.
+Qed.
+
+(* ---------- h l with a count ---------- *)
+Lemma l_iter b row l : buf_wf b -> getl b row = Some l -> forall n off, 0 <= off < slen l ->
+  iter_break n (vi_nextcol b 1) (row, off) = Some (row, Z.max off (Z.min (off + Z.of_nat n) (slen l - 2))).
+Proof.
+  intros HW El. destruct (getl_wf _ _ _ HW El) as (body & E & HF). pose proof (wf_slen l body E) as Hn.
+  induction n as [|n IH]; intros off Ho; cbn [iter_break]; [f_equal; f_equal; lia|].
+  rewrite (nextcol_spec b 1 row off l (or_introl eq_refl) El Ho).
+  destruct (Z.leb_spec 0 (off + 1)); [|lia]. cbn [andb].
+  destruct (Z.ltb_spec (off + 1) (slen l)); cbn [andb].
+  - destruct (Z.eq_dec (off + 1) (slen l - 1)) as [He|Hne].
+    + assert (Hb : b0 (chr_at l (off + 1)) = 10%N).
+      { rewrite He. rewrite E at 1. replace (slen l - 1) with (Z.of_nat (length body)) by lia. apply wf_chr_last. }
+      rewrite Hb. cbn. f_equal. f_equal. lia.
+    + assert (Hb : b0 (chr_at l (off + 1)) <> 10%N) by (rewrite E; apply wf_chr_body; [exact HF|lia]).
+      apply N.eqb_neq in Hb. rewrite Hb. cbn [negb]. rewrite IH by lia. f_equal. f_equal. lia.
+  - f_equal. f_equal. lia.
+Qed.
+
+Lemma h_iter b row l : buf_wf b -> getl b row = Some l -> forall n off, 0 <= off < slen l ->
+  iter_break n (vi_nextcol b (-1)) (row, off) = Some (row, Z.max 0 (off - Z.of_nat n)).
+Proof.
+  intros HW El. destruct (getl_wf _ _ _ HW El) as (body & E & HF). pose proof (wf_slen l body E) as Hn.
+  induction n as [|n IH]; intros off Ho; cbn [iter_break]; [f_equal; f_equal; lia|].
+  rewrite (nextcol_spec b (-1) row off l (or_intror eq_refl) El Ho).
+  destruct (Z.ltb_spec (off + -1) (slen l)); [|lia]. rewrite andb_true_r.
+  destruct (Z.leb_spec 0 (off + -1)); cbn [andb].
+  - assert (Hb : b0 (chr_at l (off + -1)) <> 10%N) by (rewrite E; apply wf_chr_body; [exact HF|lia]).
+    apply N.eqb_neq in Hb. rewrite Hb. cbn [negb]. rewrite IH by lia. f_equal. f_equal. lia.
+  - f_equal. f_equal. lia.
+Qed.
+
+(* h: count characters to the left, not beyond the first; l: count characters to the right, not
+   beyond the last character before the terminator *)
+Lemma hl_motion_spec b rows top cl cc pc has cnt row off l : buf_wf b -> getl b row = Some l -> 0 <= off < slen l ->
+  vi_motion b rows top cl cc pc has cnt Kh row off = MvOk row (Z.max 0 (off - Z.max 0 cnt)) cl cc pc /\
+  vi_motion b rows top cl cc pc has cnt Kl row off = MvOk row (Z.max off (Z.min (off + Z.max 0 cnt) (slen l - 2))) cl cc pc.
+Proof.
+  intros HW El Ho. unfold vi_motion. cbn [vi_motionln].
+  rewrite (h_iter b row l HW El _ off Ho), (l_iter b row l HW El _ off Ho).
+  replace (Z.of_nat (Z.to_nat cnt)) with (Z.max 0 cnt) by lia. split; reflexivity.
+Qed.
+
+(* ---------- { } and % at the vi_motion level ---------- *)
+Lemma iter_shift {A} (g : A -> A) n x : Nat.iter n g (g x) = g (Nat.iter n g x).
+Proof. induction n as [|n IH]; [reflexivity|]. change (g (Nat.iter n g (g x)) = g (g (Nat.iter n g x))). rewrite IH. reflexivity. Qed.
+Lemma iter_nobreak {A} (g : A -> A) : forall n x, iter_break n (fun p => Some (false, g p)) x = Some (Nat.iter n g x).
+Proof.
+  induction n as [|n IH]; intro x; cbn [iter_break]; [reflexivity|]. rewrite IH. f_equal. apply iter_shift.
+Qed.
+
+Lemma para_motion_spec b rows top cl cc pc has cnt row off (fwd : bool) :
+  vi_motion b rows top cl cc pc has cnt (if fwd then Krbrace else Klbrace) row off =
+  let p := Nat.iter (Z.to_nat cnt) (fun p => lbuf_paragraphbeg b (if fwd then 1 else -1) (fst p)) (row, off) in
+  MvOk (fst p) (snd p) cl cc pc.
+Proof.
+  unfold vi_motion. destruct fwd; cbn [vi_motionln]; rewrite iter_nobreak; cbv zeta;
+    destruct (Nat.iter _ _ _) as [r o]; reflexivity.
+Qed.
+
+Lemma pct_motion_spec b rows top cl cc pc cnt row off :
+  vi_motion b rows top cl cc pc false cnt Kpct row off =
+  match lbuf_pair (mfuel b) b row off with
+  | None => MvFuel
+  | Some None => MvFail cl cc
+  | Some (Some (r, o)) => MvOk r o cl cc pc
+  end.
+Proof. reflexivity. Qed.
+
+(* ---------- the fuel always suffices: no program of motions runs out of fuel ---------- *)
+Lemma iter_break_total {A} (step : A -> option (bool * A)) : (forall x, step x <> None) ->
+  forall n x, iter_break n step x <> None.
+Proof.
+  intros H. induction n as [|n IH]; intro x; cbn [iter_break]; [discriminate|].
+  specialize (H x). destruct (step x) as [[[] y]|]; [discriminate|apply IH|contradiction].
+Qed.
+Lemma iter_break_first {A} (step : A -> option (bool * A)) x y : step x = Some (true, y) ->
+  forall n, iter_break n step x <> None.
+Proof. intros H [|n]; cbn [iter_break]; [discriminate|]. rewrite H. discriminate. Qed.
+
+Ltac ok_iter :=
+  match goal with
+  | |- match ?it with Some _ => _ | None => MvFuel end <> MvFuel =>
+      let E := fresh "E" in destruct it as [[? ?]|] eqn:E; [discriminate|exfalso; revert E]
+  end.
+
+Lemma vi_motion_total b rows top cl cc pc has cnt k row off : buf_ne b -> vpos b row off ->
+  vi_motion b rows top cl cc pc has cnt k row off <> MvFuel.
+Proof.
+  intros NE V. destruct (word_key k) eqn:WK.
+  - destruct (word_motion_spec b rows top cl cc pc has cnt k row off NE V WK) as (r' & o' & E & _). rewrite E. discriminate.
+  - unfold vi_motion. destruct (vi_motionln b rows top has cnt k row) as [[r1|]|]; try discriminate.
+    destruct k; try discriminate;
+      try (destruct (lbuf_findchar _ _ _ _ _ _); discriminate);
+      try (destruct cl; [discriminate|destruct (lbuf_findchar _ _ _ _ _ _); discriminate]).
+    + ok_iter. apply iter_break_total. intros [r o]. unfold vi_nextcol. destruct (getl b r); [destruct (_ <? 0)|]; discriminate.
+    + ok_iter. apply iter_break_total. intros [r o]. unfold vi_nextcol. destruct (getl b r); [destruct (_ <? 0)|]; discriminate.
+    + pose proof (pair_spec b row off NE V) as P. destruct (lbuf_pair (mfuel b) b row off) as [[[? ?]|]|]; [discriminate|discriminate|contradiction].
+    + ok_iter. apply iter_break_total. intros x. discriminate.
+    + ok_iter. apply iter_break_total. intros x. discriminate.
+    + ok_iter. apply iter_break_total. intros [r o]. unfold vi_nextoff. destruct (lbuf_lnnext b 1 r o); discriminate.
+    + ok_iter. apply iter_break_total. intros [r o]. unfold vi_nextoff. destruct (lbuf_lnnext b (-1) r o); discriminate.
+Qed.
+
+Lemma vi_motion_total_empty rows top cl cc pc has cnt k : vi_motion [] rows top cl cc pc has cnt k 0 0 <> MvFuel.
+Proof.
+  unfold vi_motion. destruct (vi_motionln [] rows top has cnt k 0) as [[r1|]|]; try discriminate.
+  destruct k; try discriminate;
+    try (destruct (lbuf_findchar _ _ _ _ _ _); discriminate);
+    try (destruct cl; [discriminate|destruct (lbuf_findchar _ _ _ _ _ _); discriminate]);
+    try (ok_iter; apply iter_break_first with (y := (0, 0)); reflexivity).
+  - ok_iter. apply iter_break_total. intros x. discriminate.
+  - ok_iter. apply iter_break_total. intros x. discriminate.
+Qed.
+
+Lemma do_motion_total b rows a1 a2 k s : buf_wf b -> cursor_ok b (v_row s) (v_off s) -> do_motion b rows a1 a2 k s <> None.
+Proof.
+  intros HW HC. unfold do_motion.
+  assert (M : vi_motion b rows (v_top s) (v_cl s) (v_cc s) (v_pcol s)
+                (negb (a1 =? 0) || negb (a2 =? 0)) ((if a1 =? 0 then 1 else a1) * (if a2 =? 0 then 1 else a2)) k
+                (v_row s) (ren_noeol (getl b (v_row s)) (v_off s)) <> MvFuel).
+  { destruct b as [|l0 b0].
+    - assert (G : forall r, getl [] r = None) by (intro r; unfold getl; destruct (r <? 0); [reflexivity|destruct (Z.to_nat r); reflexivity]).
+      unfold cursor_ok in HC. rewrite G in HC |- *. destruct HC as (_ & Hr & Ho). rewrite Hr, Ho.
+      change (ren_noeol None 0) with 0. apply vi_motion_total_empty.
+    - assert (V : vpos (l0 :: b0) (v_row s) (v_off s)) by (apply cursor_ok_vpos; [discriminate|exact HC]).
+      unfold cursor_ok in HC. destruct V as (l & El & Ho). rewrite El in HC |- *.
+      rewrite ren_noeol_id; [|eapply getl_wf; eauto|exact HC].
+      apply vi_motion_total; [apply buf_wf_ne, HW|exists l; auto]. }
+  destruct (vi_motion _ _ _ _ _ _ _ _ _ _ _); [discriminate|discriminate|contradiction].
+Qed.
+
+Lemma run_total b rows : buf_wf b -> forall cs s, cursor_ok b (v_row s) (v_off s) -> run b rows cs s <> None.
+Proof.
+  intro HW. induction cs as [|c cs IH]; intros s HC; cbn [run]; [discriminate|].
+  destruct (step b rows c s) as [s1|] eqn:S1.
+  - apply IH. eapply step_ok; eauto.
+  - exfalso. destruct c as [cnt k|n]; cbn [step] in S1; [|discriminate]. revert S1. apply do_motion_total; assumption.
+Qed.
+
+Lemma run_prog_total b rows cs : buf_wf b -> run_prog b rows cs <> None.
+Proof.
+  intro HW. unfold run_prog. pose proof (run_total b rows HW cs init_vst (init_ok b HW)) as H.
+  destruct (run b rows cs init_vst); [discriminate|contradiction].
+Qed.
